@@ -504,6 +504,161 @@ def unit_add_segment() -> Dict[str, Any]:
     return finish_unit(_Unit(ex), extra)
 
 
+def unit_set_words(w: int) -> Dict[str, Any]:
+    """Memory_set_words (the bulk load of _run_native; before the storage decision, i.e. page-backed): on success
+    absM' = absM[start + j := values[j] & mask for 0 <= j < len(values)] and nothing else; on failure an error is
+    set (words already stored stay stored - the caller discards the object); Rep is preserved either way; the
+    reference taken on `values` and every item reference are released on every path."""
+    fns = load_functions()
+    name = 'Memory_set_words'
+    if name not in fns:
+        raise Undecided(f'function {name} not found in _fjcore.c')
+    nm = NativeModel(w, flat=False)
+    nh = NativeModel(w, tag='_head', flat=False)
+    nh.V, nh.new_vstart, nh.new_vend = nm.V, nm.new_vstart, nm.new_vend
+    ex = CExec(Linear(fns[name]), name=f'{name}[w{w}]')
+    nm.install(ex, ('mem_get_page',))
+    heads = [lab for lab in ex.lin.labels if lab.endswith('.head')]
+    if len(heads) != 1:
+        raise Undecided(f'{name}: expected exactly one loop')
+    BV = z3.BitVecSort(64)
+    start, n_items = z3.BitVec('api_start_word', 64), z3.BitVec('seq_len', 64)
+    vals = z3.Array('seq_items', BV, BV)
+    st = nm.st0.fork()
+    for c in nm.rep(st):
+        st.assume(c)
+    st.vars['self'], st.vars['args'] = Ptr('mem'), Ptr('pyobj', 'args')
+    st.vars['PyExc_ValueError'] = Ptr('pyobj', 'PyExc_ValueError')
+    st.ghost['refs'] = 0
+
+    def parse(e, s0, args, node):
+        fail = s0.fork()
+        fail.M['pyerr'] = z3.BoolVal(True)
+        yield (fail, i32(0))
+        ok = s0.fork()
+        outs = args[2:]
+        if len(outs) != 2 or not all(isinstance(p, Ptr) and isinstance(p.where, tuple) and p.where[0] == 'local' for p in outs):
+            raise Undecided('PyArg_ParseTuple("KO") out-parameters are not two locals')
+        ok.vars[outs[0].where[1]] = start
+        ok.vars[outs[1].where[1]] = Ptr('pyobj', 'values')
+        yield (ok, i32(1))
+
+    def seq_size(e, s0, args, node):
+        fail = s0.fork()
+        fail.M['pyerr'] = z3.BoolVal(True)
+        yield (fail, z3.BitVecVal(-1, 64))
+        ok = s0.fork()
+        ok.assume(n_items >= 0)
+        yield (ok, n_items)
+
+    def get_item(e, s0, args, node):
+        fail = s0.fork()
+        fail.M['pyerr'] = z3.BoolVal(True)
+        yield (fail, NULL)
+        ok = s0.fork()
+        ok.ghost['refs'] = ok.ghost.get('refs', 0) + 1
+        ok.ghost['item_index'] = args[1]
+        yield (ok, Ptr('pyobj', 'item'))
+
+    def as_ull(e, s0, args, node):
+        ok = s0.fork()
+        yield (ok, z3.Select(vals, s0.ghost['item_index']))
+        fail = s0.fork()
+        fail.M['pyerr'] = z3.BoolVal(True)
+        yield (fail, z3.BitVecVal(-1, 64))
+
+    def err_occurred(e, s0, args, node):
+        yield (s0, Ptr('pyobj', 'exc', z3.Not(s0.M['pyerr'])))
+
+    def incref(e, s0, args, node):
+        s = s0.fork()
+        s.ghost['refs'] = s.ghost.get('refs', 0) + 1
+        yield (s, None)
+
+    def decref(e, s0, args, node):
+        s = s0.fork()
+        s.ghost['refs'] = s.ghost.get('refs', 0) - 1
+        yield (s, None)
+
+    def set_error(e, s0, args, node):
+        s = s0.fork()
+        s.M['pyerr'] = z3.BoolVal(True)
+        yield (s, None)
+
+    for nme, h in (('PyArg_ParseTuple', parse), ('_PyArg_ParseTuple_SizeT', parse), ('PySequence_Size', seq_size), ('PySequence_GetItem', get_item),
+                   ('PyLong_AsUnsignedLongLong', as_ull), ('PyErr_Occurred', err_occurred), ('Py_INCREF', incref), ('_Py_INCREF', incref),
+                   ('Py_DECREF', decref), ('_Py_DECREF', decref), ('PyErr_SetString', set_error)):
+        ex.contracts[nme] = h
+    x = z3.BitVec('x_sw', 64)
+    mask = u64(nm.mask)
+
+    def loaded(s, model, upto):
+        """abstract memory of s = entry memory with the first `upto` items stored"""
+        return z3.ForAll([x], model.absM(s, x) == z3.If(z3.ULT(x - start, upto), z3.Select(vals, x - start) & mask, nm.absM(st, x)))
+
+    extra: List[Obl] = [Obl(f'{ex.name}:cover.requires', list(st.pc), None, 'cover')]
+
+    def at_return(s, ret, tag, base):
+        extra.append(Obl(f'{tag}.cover', list(s.pc), None, 'cover'))
+        extra.append(Obl(f'{tag}.every_reference_released', list(s.pc), z3.BoolVal(s.ghost.get('refs', 0) == 0)))
+        for nm_, c in nm.rep_changed(base, s):
+            extra.append(Obl(f'{tag}.Rep_preserved.{nm_}', list(s.pc), c))
+        if ret is NULL or (isinstance(ret, Ptr) and ret.kind == 'null'):
+            extra.append(Obl(f'{tag}.failure_sets_an_error', list(s.pc), s.M['pyerr']))
+        else:
+            extra.append(Obl(f'{tag}.success_without_pending_error', list(s.pc), z3.Not(s.M['pyerr'])))
+            extra.append(Obl(f'{tag}.memory_is_the_entry_memory_with_every_item_stored_masked', list(s.pc), loaded(s, nm, n_items)))
+
+    ctx = None
+    for i, (s, where) in enumerate(ex.run(st, 0, stop={heads[0]})):
+        if where[0] == 'return':
+            at_return(s, where[1], f'{ex.name}:before_loop.path{i}', st)
+            extra.append(Obl(f'{ex.name}:before_loop.path{i}.memory_untouched', list(s.pc), nm.same_state(st, s, tuple(k for k in nm.MEM_KEYS if k != 'pyerr'))))
+        else:
+            if ctx is not None:
+                raise Undecided(f'{name}: more than one path reaches the loop')
+            ctx = s
+            extra.append(Obl(f'{ex.name}:loop.entry.holds_one_reference_and_no_error', list(s.pc), z3.And(z3.BoolVal(s.ghost.get('refs', 0) == 1), z3.Not(s.M['pyerr']), s.vars['i'] == 0, s.vars['count'] == n_items, s.vars['start_word'] == start)))
+    if ctx is None:
+        raise Undecided(f'{name}: the loop is not reached')
+    # an arbitrary iteration: memory = any state satisfying Rep whose abstract memory is the entry memory + i items
+    sh = nh.st0.fork()
+    sh.pc = list(ctx.pc) + [c for c in sh.pc]
+    sh.vars = dict(ctx.vars)
+    sh.ghost = dict(ctx.ghost)
+    sh.vars['i'] = z3.BitVec('i_any', 64)
+    for c in nh.rep(sh):
+        sh.assume(c)
+    sh.assume(z3.And(sh.vars['i'] >= 0, sh.vars['i'] <= n_items))
+    sh.assume(loaded(sh, nh, sh.vars['i']))
+    sh.assume(z3.Not(sh.M['pyerr']))
+    extra.append(Obl(f'{ex.name}:loop.cover.invariant_satisfiable', list(sh.pc), None, 'cover'))
+    i_h = sh.vars['i']
+    for i, (s, where) in enumerate(ex.run(sh, heads[0], stop={heads[0]})):
+        if where[0] == 'return':
+            tag = f'{ex.name}:from_an_iteration.path{i}'
+            extra.append(Obl(f'{tag}.cover', list(s.pc), None, 'cover'))
+            extra.append(Obl(f'{tag}.every_reference_released', list(s.pc), z3.BoolVal(s.ghost.get('refs', 0) == 0)))
+            for nm_, c in nh.rep_changed(sh, s):
+                extra.append(Obl(f'{tag}.Rep_preserved.{nm_}', list(s.pc), c))
+            ret = where[1]
+            if ret is NULL or (isinstance(ret, Ptr) and ret.kind == 'null'):
+                extra.append(Obl(f'{tag}.failure_sets_an_error', list(s.pc), s.M['pyerr']))
+            else:
+                extra.append(Obl(f'{tag}.success_without_pending_error', list(s.pc), z3.Not(s.M['pyerr'])))
+                extra.append(Obl(f'{tag}.memory_is_the_entry_memory_with_every_item_stored_masked', list(s.pc), loaded(s, nh, n_items)))
+        else:
+            tag = f'{ex.name}:loop.invariant_preserved.path{i}'
+            extra.append(Obl(f'{tag}.index_advances_inside_the_sequence', list(s.pc), z3.And(s.vars['i'] == i_h + 1, s.vars['i'] <= n_items, s.vars['count'] == n_items, s.vars['start_word'] == start)))
+            extra.append(Obl(f'{tag}.one_more_item_stored_nothing_else_changed', list(s.pc), loaded(s, nh, s.vars['i'])))
+            extra.append(Obl(f'{tag}.no_error_and_one_reference_held', list(s.pc), z3.And(z3.Not(s.M['pyerr']), z3.BoolVal(s.ghost.get('refs', 0) == 1))))
+            for nm_, c in nh.rep_changed(sh, s):
+                extra.append(Obl(f'{tag}.Rep_preserved.{nm_}', list(s.pc), c))
+            extra.append(Obl(f'{tag}.cover', list(s.pc), None, 'cover'))
+    extra.append(Obl(f'{ex.name}:canary', list(st.pc), None, 'canary'))
+    return finish_unit(_Unit(ex), extra)
+
+
 # ----------------------------------------------------------------------------- the run loops
 
 
